@@ -175,6 +175,9 @@ def one_pair(sh: Shard, n, tier, seed, died, parts):
             if not quiesce(sim, spa, limit=30):
                 sh.count("real_quiesce_timeouts")
                 continue
+            # (real time: judged once the acknowledgements have caught up, or after 60 s)
+            wait_until(lambda: len([x for x in sim.sock.rx[rx0:] if b"<DATAS>STATQ" in x[1]]) >= len([x for x in sim.sock.tx[tx0:] if b"<DATAS>STATP" in x[1]]) and not sim.engine._send_handlers and not spa._send_handlers, 60, step=0.1)
+            time.sleep(0.1)
             sent = [x for x in sim.sock.tx[tx0:] if b"<DATAS>STATP" in x[1]]
             acks = [x for x in sim.sock.rx[rx0:] if b"<DATAS>STATQ" in x[1]]
             sh.evaluations += 1
